@@ -92,3 +92,19 @@ func (api *DatabaseAPI) VerifShutdown() {
 		close(api.shutdownSignal)
 	}
 }
+
+// VerifAPIKeyTable returns a copy of the currently imported API keys
+// (key -> read/write permission, expired keys left out).
+func VerifAPIKeyTable() map[string][2]Permission {
+	apiKeysLock.Lock()
+	defer apiKeysLock.Unlock()
+
+	out := make(map[string][2]Permission, len(apiKeys))
+	for k, t := range apiKeys {
+		if t.ValidUntil != nil && time.Now().After(*t.ValidUntil) {
+			continue
+		}
+		out[k] = [2]Permission{t.Read, t.Write}
+	}
+	return out
+}
